@@ -24,6 +24,12 @@ committed golden definition, bound to the code by the correspondence only):
   * calls to other registered functions; calls listed as *abstract* in the spec (RNG draws,
     table look-ups, spline evaluations) -> fresh parameters
   * module constants resolved from the imported module
+  * `elementwise=True` specs — the numpy *masked-array idiom* read per element: every array argument is one element of it;
+    `x = numpy.zeros/full/ones(shape)` -> the constant; `mask = <comparison / logical_and / logical_not / logical_or>` -> a Bool;
+    `Y[mask]` (also `(a*b)[mask]`, `Y[mask][sub]`, and aliases `_Y = Y[mask]`) -> `Y` (the value of that element, read only where the mask
+    holds); `x[mask] = e` -> `x := if mask then e else x`; `numpy.clip`; `if abort-guard` -> precondition. Cross-element operations
+    (sums, sorts, reductions) are not in the subset. `drop=[names]` projects away outputs the model does not interpret (e.g. SIGNIF, which
+    goes through scipy): statements assigning them are skipped and it is checked that nothing kept reads them.
 """
 import ast
 import importlib
@@ -58,13 +64,16 @@ def flit(v):
 
 
 class Spec:
-    def __init__(self, module, qual, lean, params, bools=(), consts=None, abstract=None, note=''):
+    def __init__(self, module, qual, lean, params, bools=(), consts=None, abstract=None, note='', elementwise=False, drop=(), guards=()):
         self.module, self.qual, self.lean = module, qual, lean
         self.params = list(params)          # python names that become α parameters, in order
         self.bools = list(bools)            # python names that become Bool parameters
         self.consts = dict(consts or {})    # python name -> python constant (None, True, 'NotNone', 1.0, ...)
         self.abstract = dict(abstract or {})  # call text prefix -> param name or tuple of names
         self.note = note
+        self.elementwise = elementwise      # per-element reading of the masked-array idiom
+        self.drop = set(drop)               # outputs projected away (with the statements that compute them)
+        self.guards = set(guards)           # names of guard calls (abort on incompatible operands) skipped as preconditions
 
     def obj(self):
         o = importlib.import_module(self.module)
@@ -108,6 +117,13 @@ class Translator:
             s = ast.unparse(n)
             if s in ('numpy.pi', 'np.pi'):
                 return '(RealLike.pi : α)'
+            if spec.elementwise and s.startswith('other.') and s.count('.') == 1:
+                nm = 'other_' + n.attr
+                if nm not in cx['selfattrs']:
+                    cx['selfattrs'].append(nm)
+                return nm
+            if s.startswith('self.') and s.count('.') == 1 and ('self_' + n.attr) in cx['env']:
+                return cx['env']['self_' + n.attr]          # an attribute re-assigned earlier in the method
             if s.startswith('self.') and s.count('.') == 1:
                 nm = 'self_' + n.attr
                 if nm not in cx['selfattrs']:
@@ -144,6 +160,9 @@ class Translator:
             return '(%s)' % ', '.join(self.expr(e, cx) for e in n.elts)
         if isinstance(n, ast.Call):
             return self.call(n, cx)
+        if isinstance(n, ast.Subscript) and spec.elementwise and isinstance(n.slice, ast.Name) and n.slice.id in cx['boolenv']:
+            cx['notes'].append('%s read per element under the mask %s' % (ast.unparse(n.value), n.slice.id))
+            return self.expr(n.value, cx)
         if isinstance(n, ast.Subscript):
             fake = ast.Call(func=n.value, args=[], keywords=[])
             a = self.abstract_param(fake, cx)
@@ -194,6 +213,13 @@ class Translator:
             return '(if %s ∧ %s then (1.0 : α) else (0.0 : α))' % (self.cond(args[0], cx), self.cond(args[1], cx))
         if isnp and base == 'full':
             return self.expr(args[1], cx)
+        if isnp and base in ('zeros', 'zeros_like') and cx['spec'].elementwise:
+            return '(0.0 : α)'
+        if isnp and base in ('ones', 'ones_like') and cx['spec'].elementwise:
+            return '(1.0 : α)'
+        if isnp and base == 'clip':
+            x, lo, hi = (self.expr(a_, cx) for a_ in args[:3])
+            return '(if %s < %s then %s else if %s < %s then %s else %s)' % (x, lo, lo, hi, x, hi, x)
         if isnp and base == 'hypot':
             x, y = self.expr(args[0], cx), self.expr(args[1], cx)
             return '(RealLike.sqrt (%s * %s + %s * %s))' % (x, x, y, y)
@@ -254,10 +280,25 @@ class Translator:
             return '%s = true' % n.id
         if isinstance(n, ast.Call) and ast.unparse(n.func).split('.')[-1] == 'logical_and':
             return '(%s ∧ %s)' % (self.cond(n.args[0], cx), self.cond(n.args[1], cx))
+        if isinstance(n, ast.Call) and ast.unparse(n.func).split('.')[-1] == 'logical_or':
+            return '(%s ∨ %s)' % (self.cond(n.args[0], cx), self.cond(n.args[1], cx))
+        if isinstance(n, ast.Call) and ast.unparse(n.func).split('.')[-1] == 'logical_not':
+            return '(¬ %s)' % self.cond(n.args[0], cx)
+        if isinstance(n, ast.BinOp) and isinstance(n.op, (ast.BitAnd, ast.BitOr)):
+            return '(%s %s %s)' % (self.cond(n.left, cx), '∧' if isinstance(n.op, ast.BitAnd) else '∨', self.cond(n.right, cx))
         if isinstance(n, ast.BoolOp):
             j = ' ∧ ' if isinstance(n.op, ast.And) else ' ∨ '
             return '(%s)' % j.join(self.cond(v, cx) for v in n.values)
         raise Untranslatable('condition %s' % ast.unparse(n))
+
+    def is_boolean(self, n, cx):
+        if isinstance(n, ast.Compare):
+            return True
+        if isinstance(n, ast.Call) and ast.unparse(n.func).split('.')[-1] in ('logical_and', 'logical_or', 'logical_not'):
+            return True
+        if isinstance(n, ast.BinOp) and isinstance(n.op, (ast.BitAnd, ast.BitOr)):
+            return self.is_boolean(n.left, cx) and self.is_boolean(n.right, cx)
+        return isinstance(n, ast.Name) and n.id in cx['boolenv'] and n.id not in cx['spec'].bools
 
     def const_cond(self, n, cx):
         """Return True/False if the test is decided by the spec constants, else None."""
@@ -288,8 +329,67 @@ class Translator:
         if isinstance(s, ast.FunctionDef):
             cx['notes'].append('nested def %s ignored' % s.name)
             return self.block(rest, cx, tail)
+        spec = cx['spec']
+        if spec.drop:
+            tnames = set()
+            if isinstance(s, (ast.Assign, ast.AugAssign)):
+                for t_ in (s.targets if isinstance(s, ast.Assign) else [s.target]):
+                    b_ = t_
+                    while isinstance(b_, ast.Subscript):
+                        b_ = b_.value
+                    if isinstance(b_, ast.Name):
+                        tnames.add(b_.id)
+            reads = {x.id for x in ast.walk(s.value if isinstance(s, (ast.Assign, ast.AugAssign)) else s) if isinstance(x, ast.Name)}
+            if tnames and tnames <= spec.drop | cx['dropped']:
+                cx['dropped'] |= tnames
+                cx['notes'].append('projected away: %s' % ast.unparse(s)[:80])
+                return self.block(rest, cx, tail)
+            if isinstance(s, ast.Return) and isinstance(s.value, ast.Tuple):
+                s = ast.Return(value=ast.Tuple(elts=[e for e in s.value.elts if not (isinstance(e, ast.Name) and e.id in spec.drop | cx['dropped'])], ctx=ast.Load()))
+            elif reads & (spec.drop | cx['dropped']) and not isinstance(s, ast.Return):
+                raise Untranslatable('a kept statement reads a projected-away variable: %s' % ast.unparse(s)[:80])
+        if spec.elementwise and isinstance(s, ast.With):
+            cx['notes'].append('with %s: body inlined' % ast.unparse(s.items[0].context_expr)[:60])
+            return self.block(list(s.body) + rest, cx, tail)
+        if spec.elementwise and isinstance(s, ast.Expr) and isinstance(s.value, ast.Call) and ast.unparse(s.value.func).split('.')[-1] in spec.guards:
+            cx['notes'].append('guard call (aborts on incompatible operands): %s' % ast.unparse(s.value)[:100])
+            return self.block(rest, cx, tail)
+        if spec.elementwise and isinstance(s, ast.Return) and isinstance(s.value, ast.Name) and s.value.id == 'self':
+            if not cx['assigned_self']:
+                raise Untranslatable('return self without state update')
+            return '(%s)' % ', '.join(cx['assigned_self'])
         if isinstance(s, ast.Return):
             return self.expr(s.value, cx)
+        if spec.elementwise and isinstance(s, ast.Assign) and len(s.targets) == 1 and isinstance(s.targets[0], ast.Attribute) \
+                and isinstance(s.targets[0].value, ast.Name) and s.targets[0].value.id == 'self':
+            nm = 'self_' + s.targets[0].attr
+            v = self.expr(s.value, cx)
+            if nm not in cx['selfattrs']:
+                cx['selfattrs'].append(nm)
+            cx['env'][nm] = nm
+            if nm not in cx['assigned_self']:
+                cx['assigned_self'].append(nm)
+            return 'let %s := %s\n%s' % (nm, v, self.block(rest, cx, tail))
+        if spec.elementwise and isinstance(s, ast.Assign) and len(s.targets) == 1 and isinstance(s.targets[0], ast.Subscript) \
+                and isinstance(s.targets[0].value, ast.Name) and isinstance(s.targets[0].slice, ast.Compare):
+            nm = s.targets[0].value.id
+            if nm not in cx['env']:
+                raise Untranslatable('masked assignment to an unknown array %s' % nm)
+            c = self.cond(s.targets[0].slice, cx)
+            v = self.expr(s.value, cx)
+            return 'let %s := if %s then %s else %s\n%s' % (nm, c, v, cx['env'][nm], self.block(rest, cx, tail))
+        if spec.elementwise and isinstance(s, ast.Assign) and len(s.targets) == 1 and isinstance(s.targets[0], ast.Name) and self.is_boolean(s.value, cx):
+            nm = s.targets[0].id
+            c = self.cond(s.value, cx)
+            cx['boolenv'].add(nm)
+            return 'let %s : Bool := decide (%s)\n%s' % (nm, c, self.block(rest, cx, tail))
+        if spec.elementwise and isinstance(s, ast.Assign) and len(s.targets) == 1 and isinstance(s.targets[0], ast.Subscript) \
+                and isinstance(s.targets[0].value, ast.Name) and isinstance(s.targets[0].slice, ast.Name) and s.targets[0].slice.id in cx['boolenv']:
+            nm, mk = s.targets[0].value.id, s.targets[0].slice.id
+            if nm not in cx['env']:
+                raise Untranslatable('masked assignment to an unknown array %s' % nm)
+            v = self.expr(s.value, cx)
+            return 'let %s := if %s = true then %s else %s\n%s' % (nm, mk, v, cx['env'][nm], self.block(rest, cx, tail))
         if isinstance(s, ast.Assign) and len(s.targets) == 1:
             t = s.targets[0]
             v = self.expr(s.value, cx)
@@ -318,10 +418,17 @@ class Translator:
                 return self.block(list(s.body) + rest, cx, tail)
             if k is False:
                 return self.block(list(s.orelse) + rest, cx, tail)
+            if cx['spec'].elementwise and not s.orelse and s.body and isinstance(s.body[-1], ast.Expr) and isinstance(s.body[-1].value, ast.Call) \
+                    and ast.unparse(s.body[-1].value.func) == 'abort':
+                cx['notes'].append('precondition (aborts otherwise): not (%s)' % ast.unparse(s.test))
+                return self.block(rest, cx, tail)
             c = self.cond(s.test, cx)
             ends_ret = s.body and isinstance(s.body[-1], ast.Return)
             calls_abort = s.body and isinstance(s.body[-1], ast.Expr) and isinstance(s.body[-1].value, ast.Call) \
                 and ast.unparse(s.body[-1].value.func) in ('abort',)
+            if calls_abort and cx['spec'].elementwise and not s.orelse:
+                cx['notes'].append('precondition (aborts otherwise): not (%s)' % ast.unparse(s.test))
+                return self.block(rest, cx, tail)
             if calls_abort:
                 raise Untranslatable('abort branch')
             if ends_ret and not s.orelse:
@@ -353,10 +460,10 @@ class Translator:
         src = textwrap.dedent(inspect.getsource(fn))
         node = ast.parse(src).body[0]
         cx = dict(spec=spec, mod=mod, env={p: p for p in spec.params}, boolenv=set(spec.bools),
-                  selfattrs=[], absparams=[], abs_count={}, notes=[], abscalls=[])
+                  selfattrs=[], absparams=[], abs_count={}, notes=[], abscalls=[], dropped=set(), assigned_self=[])
         body = self.block(list(node.body), cx)
         # return arity
-        nret = self._arity(node, self.registry)
+        nret = len(cx['assigned_self']) if cx['assigned_self'] else self._arity(node, self.registry, spec.drop | cx['dropped'])
         rty = ' × '.join(['α'] * nret)
         spec._selfattrs, spec._absparams, spec._nret, spec._notes = cx['selfattrs'], cx['absparams'], nret, cx['notes']
         spec._abscalls = cx['abscalls']
@@ -370,8 +477,10 @@ class Translator:
         return doc + 'def %s {α : Type} [RealLike α]%s : %s :=\n%s\n' % (spec.lean, sig, rty, textwrap.indent(body, '  '))
 
     @staticmethod
-    def _arity(node, registry):
+    def _arity(node, registry, dropped=frozenset()):
         for s in ast.walk(node):
+            if isinstance(s, ast.Return) and s.value is not None and isinstance(s.value, ast.Tuple) and dropped:
+                return len([e for e in s.value.elts if not (isinstance(e, ast.Name) and e.id in dropped)])
             if isinstance(s, ast.Return) and s.value is not None:
                 if isinstance(s.value, ast.Call):
                     base = ast.unparse(s.value.func).split('.')[-1]
